@@ -269,6 +269,10 @@ func (e *AffEnv) ofd(v ssa.Value, depth int) Aff {
 				}
 				return out
 			}
+			// len(make([]T, n)) == n
+			if mk, ok := canon(x.Call.Args[0]).(*ssa.MakeSlice); ok {
+				return e.ofd(mk.Len, depth+1)
+			}
 		}
 		if s := e.pureCall(x, depth); s != "" {
 			return affAtom(s)
